@@ -13,6 +13,22 @@ from vp.util import F, FL, finite_floats
 DEFAULT_SCALE = {'DE': (10, 1000), 'DE2': (10, 1000), 'NM': (200, 200), 'PW': (1000, 1000)}
 
 
+# further termination conditions (all of them only read the solver state, except 'gnt': GradientNormTolerance
+# differentiates the user's raw cost)
+TERMS_MORE = ['spread', 'solimp', 'vtrcog', 'or', 'and', 'when', 'gnt']
+
+
+def uses_gnt(case):
+    return case.get('term') == 'gnt' or any(op[0] == 'term' and op[1] == 'gnt' for op in case.get('ops', []))
+
+
+def kf_gnt(case, subcheck, detail):
+    """GradientNormTolerance differentiates the user's *raw* cost (termination.py: approx_fprime(bestSolution,
+    inst._cost[1], eps)) every time the termination is looked at: those calls are not counted, not monitored, not
+    bounded by the strict ranges, and happen even when a Step refuses to start"""
+    return uses_gnt(case) and subcheck in ('C04.evals', 'C04.evalmon', 'C05.message', 'C05.no_start', 'C05.bounds',
+                                           'C05.start', 'C02.calls')
+
 class SolverState(object):
     def __init__(self, case, ctx, active):
         self.case = case; self.ctx = ctx; self.active = active
@@ -121,10 +137,19 @@ class SolverState(object):
         if gens >= mi: reasons.append('maxiter')
         if self.exit_requested: reasons.append('exit')
         try:
-            if self.solver._termination(self.solver): reasons.append('termination')
+            if self.term_now(): reasons.append('termination')
         except Exception:
             pass
         return reasons or None
+
+    def term_now(self, info=False):
+        """the harness's own look at the termination condition; a condition that evaluates the user's cost
+        (GradientNormTolerance differentiates the raw cost) must not show up in the record of the solver's calls"""
+        self.cost.enabled = False
+        try:
+            return self.solver._termination(self.solver, info) if info else self.solver._termination(self.solver)
+        finally:
+            self.cost.enabled = True
 
     # -- invariants after every operation ------------------------------------
     def invariants(self, where):
@@ -220,7 +245,7 @@ class SolverState(object):
         elif msg.startswith('SolverInterrupt'):
             self.expect(self.exit_requested, 'C05.message', lambda: dict(where=where, msg=msg, note='no exit was requested'))
         else:
-            info = s._termination(s, info=True)
+            info = self.term_now(info=True)
             self.expect(bool(info) and msg == info, 'C05.message',
                         lambda: dict(where=where, msg=msg, termination_info=info))
 
@@ -297,7 +322,11 @@ class SolverState(object):
         self.solves += 1
         # Solve() clears the exit flag at its start
         self.exit_requested = bool(s._EARLYEXIT)
-        msg = s.Terminated(info=True)
+        self.cost.enabled = False
+        try:
+            msg = s.Terminated(info=True)
+        finally:
+            self.cost.enabled = True
         self.expect(bool(msg), 'C05.solve_returns', lambda: dict(where=where, note='Solve returned but solver is not terminated'))
         mi, mf = self.limits()
         self.expect(self.iters() - 1 <= mi or self.iters() == it0, 'C05.bounds',
@@ -481,7 +510,7 @@ def headers(draw, tier, for_prop):
                                                          min_size=dim, max_size=dim)))
     h['evalmon'] = draw(st.sampled_from([None, 'plain', 'plain', 'verbose', 'logging']))
     h['stepmon'] = draw(st.sampled_from([None, None, 'plain', 'verbose', 'logging', 'vlogging']))
-    h['term'] = draw(st.sampled_from(['never', 'never', 'cog', 'vtr', 'default', 'ncog']))
+    h['term'] = draw(st.sampled_from(['never', 'never', 'cog', 'vtr', 'default', 'ncog'] + TERMS_MORE))
     if draw(st.booleans()):
         h['limits'] = [draw(st.sampled_from([None, 0, 1, 2, 3, 5, 8])), draw(st.sampled_from([None, None, 0, 1, 5, 20, 60]))]
     else:
@@ -536,7 +565,7 @@ def machine_factory(for_prop):
             def reducer(self, r):
                 self.do(['reducer', r])
 
-            @rule(t=st.sampled_from(['never', 'cog', 'vtr', 'default', 'ncog']))
+            @rule(t=st.sampled_from(['never', 'cog', 'vtr', 'default', 'ncog'] + TERMS_MORE))
             def term(self, t):
                 self.do(['term', t])
 
